@@ -50,13 +50,16 @@ def _final_rescale(model: Model):
     last = tops[-1]
     sweep = max(tops[:-1], key=lambda n: sum(1 for _ in ast.walk(n)))
     for st in last.body:
-        if isinstance(st, ast.AugAssign) and isinstance(st.op, ast.Mult) and isinstance(st.target, ast.Subscript) and isinstance(st.target.value, ast.Name) \
-                and isinstance(st.value, ast.Name):
+        # <cores>[i] *= g  inside `for i in range(d)`,  or  core *= g  inside `for core in <cores>`
+        indexed = isinstance(st, ast.AugAssign) and isinstance(st.op, ast.Mult) and isinstance(st.target, ast.Subscript) and isinstance(st.target.value, ast.Name)
+        direct = isinstance(st, ast.AugAssign) and isinstance(st.op, ast.Mult) and isinstance(st.target, ast.Name) and isinstance(last.target, ast.Name) \
+            and st.target.id == last.target.id and isinstance(last.iter, ast.Name)
+        if (indexed or direct) and isinstance(st.value, ast.Name):
             g = st.value.id
             defs = [n for n in f.node.body if isinstance(n, ast.Assign) and any(isinstance(t, ast.Name) and t.id == g for t in n.targets)]
             gm = [d for d in defs if norm(d.value).replace(" ", "").startswith("np.exp(np.sum(np.log(")]
             if gm:
-                return norm(st)[:100], st.target.value.id, g, sweep, f
+                return norm(st)[:100], (st.target.value.id if indexed else last.iter.id), g, sweep, f
     return None
 
 
